@@ -11,7 +11,7 @@ NOT_APPLICABLE = {
 }
 
 SM_KICK = [sm.CalcCoefficiants, sm.UpdateSM, sm.KickMapApply, sm.SourceMapCtor, sm.SourceMapCtor7, sm.KickMapCtor,
-           sm.RFCalcKick, sm.RFKickMapLinearCtor, sm.RFKickMapSinCtor, sm.DriftMapCtor, sm.WakePotentialMapUpdate]
+           sm.RFCalcKick, sm.RFKickMapLinearCtor, sm.RFKickMapSinCtor, sm.DriftMapCtor, sm.WakePotentialMapUpdate, sm.WakeKickMapCtor, sm.WakePotentialMapCtor, sm.WakeMapsKeepOwnRows]
 SM_FP = [sm.FokkerPlanckCtor, sm.FokkerPlanckApply]
 Z_UNITS = [z.FreeSpaceCSRCalc, z.ResistiveWallCalc, z.ResistiveWallScale, z.ConstImpedanceCalc, z.ParallelPlatesCalc, z.ImpedanceAddAssign,
            z.ImpedanceCtorRuler, z.ImpedanceCtorVec, z.ImpedanceCtorZero, z.FreeSpaceCSRCtor, z.ResistiveWallCtor, z.ConstImpedanceCtor,
@@ -212,7 +212,7 @@ PROPERTIES = {
         'technique': TECH,
     },
     'C05': {
-        'units': [mainloop.MainLoop, mainspec.MainConfig, mainspec.MainPhysics, mainspec.MainGrid, mainspec.MainUnits, mainspec.MainFields, mainspec.MainWiring, mainspec.MapDispatch, io.ProgramOptionsGetters, sm.WakePotentialMapUpdate, ef.ElectricFieldScale, sm.RFCalcKick, sm.DriftMapCtor, sm.FokkerPlanckCtor, ef.WakePotential, sm.UpdateSM, sm.KickMapApply],
+        'units': [mainloop.MainLoop, mainspec.MainConfig, mainspec.MainPhysics, mainspec.MainGrid, mainspec.MainUnits, mainspec.MainFields, mainspec.MainWiring, mainspec.MapDispatch, io.ProgramOptionsGetters, sm.WakePotentialMapUpdate, sm.WakeKickMapCtor, sm.WakePotentialMapCtor, sm.WakeMapsKeepOwnRows, ef.ElectricFieldScale, sm.RFCalcKick, sm.DriftMapCtor, sm.FokkerPlanckCtor, ef.WakePotential, sm.UpdateSM, sm.KickMapApply],
         'lemmas': [sm.lemmas_fp, sm.lemmas_c03],
         'level': 'other',
         'claim': 'the ingredients of the stationary (Haissinski) relation are proved on the code: within one step the wake potential is computed from the projection left by the previous step, then wake kick, RF kick, drift, '
